@@ -407,6 +407,13 @@ func gen(rt *rapid.T) Case {
 	if c.DescKind != "" {
 		descPos = rapid.IntRange(0, n-1).Draw(rt, "descpos")
 	}
+	// a tenth of the profiles are crowds: many tags that all reference one (small) element - legal, and the profile
+	// is then much smaller than any per-tag size estimate
+	shareAll := rapid.IntRange(0, 9).Draw(rt, "shareall") == 0
+	if shareAll && c.DescKind != "" {
+		n = rapid.IntRange(20, 64).Draw(rt, "crowdtags")
+		descPos = rapid.SampledFrom([]int{0, 0, n - 1, n / 2}).Draw(rt, "crowddescpos")
+	}
 	used := map[uint32]bool{descSig: true}
 	for i := 0; i < n; i++ {
 		if i == descPos {
@@ -423,8 +430,11 @@ func gen(rt *rapid.T) Case {
 		used[sig] = true
 		t := Tag{Sig: sig, Len: rapid.IntRange(8, 40).Draw(rt, "taglen"), Share: -1,
 			Kind: rapid.SampledFrom([]string{"", "", "desc", "mluc", "text"}).Draw(rt, "fillerkind")}
-		if i > 0 && rapid.IntRange(0, 4).Draw(rt, "tagshare") == 0 {
+		if i > 0 && (rapid.IntRange(0, 4).Draw(rt, "tagshare") == 0 || shareAll) {
 			j := rapid.IntRange(0, i-1).Draw(rt, "sharewith")
+			if shareAll {
+				j = 0 // every tag references the first tag's element (possibly the description itself)
+			}
 			if c.Tags[j].Share >= 0 {
 				j = c.Tags[j].Share
 			}
